@@ -62,7 +62,7 @@ func newPart(lstat bool) hackpadfs.FS {
 	return subj.NewMem()
 }
 
-func buildWorld(points []string, lstat bool) *world {
+func buildWorld(points []string, lstat bool, bind int) *world {
 	pts := append([]string{}, points...)
 	sort.Slice(pts, func(i, j int) bool {
 		if depth(pts[i]) != depth(pts[j]) {
@@ -77,6 +77,11 @@ func buildWorld(points []string, lstat bool) *world {
 	for i, p := range pts {
 		must(hackpadfs.MkdirAll(mfs, p, 0o755)) // created in whichever FS the current routing selects
 		m := newPart(lstat)
+		if bind > 0 && i == len(pts)-1 {
+			// a bind mount: the last point shows a file system that is already part of the composition (the root itself
+			// for bind == 1): routing is decided by the mount point, never by which file system sits there
+			m = w.parts[(bind-1)%len(w.parts)]
+		}
 		must(mfs.AddMount(p, m))
 		w.parts = append(w.parts, m)
 		w.points = append(w.points, p)
@@ -175,6 +180,8 @@ type Header struct {
 	Stacked bool `json:"stacked,omitempty"`
 	// LstatParts: every constituent also implements hackpadfs.LstatFS
 	LstatParts bool `json:"lstat_parts,omitempty"`
+	// Bind: > 0 = the last mount point is a bind mount of constituent (Bind-1) mod n (1 = the root file system)
+	Bind int `json:"bind,omitempty"`
 }
 
 type machine struct {
@@ -183,7 +190,7 @@ type machine struct {
 }
 
 func newMachine(h Header) *machine {
-	m := &machine{w1: buildWorld(h.Points, h.LstatParts), w2: buildWorld(h.Points, h.LstatParts)}
+	m := &machine{w1: buildWorld(h.Points, h.LstatParts, h.Bind), w2: buildWorld(h.Points, h.LstatParts, h.Bind)}
 	for _, w := range []*world{m.w1, m.w2} {
 		w.top = w.mfs
 		if h.Stacked {
@@ -322,8 +329,17 @@ func (m *machine) crossRename(op ops.Op, r1 ops.Res, before []ops.Snap, i1 int, 
 			want[i][k] = v
 		}
 	}
-	delete(want[i1], rest1)
-	want[i2][rest2] = src
+	// (with a bind mount one file system is several constituents: what changes in it changes in each of them)
+	for j := range want {
+		if m.w1.parts[j] == m.w1.parts[i1] {
+			delete(want[j], rest1)
+		}
+	}
+	for j := range want {
+		if m.w1.parts[j] == m.w1.parts[i2] {
+			want[j][rest2] = src
+		}
+	}
 	if d := diffAll(want, after, "expected", "actual"); d != "" {
 		return base + ":wrong-result", fmt.Sprintf("after %v (source %v): %s", op, src, d)
 	}
@@ -363,6 +379,10 @@ func run(t *testing.T) {
 	vf.Check(t, "route", func(rt *rapid.T, rec *vf.Rec) {
 		h := Header{Points: genPoints(rt), Stacked: rapid.IntRange(0, 3).Draw(rt, "stacked") == 0}
 		h.LstatParts = rapid.IntRange(0, 2).Draw(rt, "lstatparts") == 0
+		if len(h.Points) > 0 && rapid.IntRange(0, 3).Draw(rt, "bindmount") == 0 {
+			h.Bind = rapid.SampledFrom([]int{1, 1, 2, 3}).Draw(rt, "bind")
+			rec.Class("bind-mount")
+		}
 		rec.Step(h)
 		if h.Stacked {
 			rec.Class("stacked-mount-layers")
@@ -389,6 +409,13 @@ func run(t *testing.T) {
 				}
 				if h.LstatParts && rapid.IntRange(0, 3).Draw(rt, "aslstat") == 0 {
 					op = ops.Op{K: "lstat", P: op.P}
+				}
+				if h.Bind > 0 && op.K == "rename" {
+					i1, _ := m.w1.route(op.P)
+					i2, _ := m.w1.route(op.P2)
+					if i1 != i2 && m.w1.parts[i1] == m.w1.parts[i2] {
+						rt.Skip("rename between two mount points of one file system: judged per constituent, which are one here")
+					}
 				}
 				if k := knownSig(m, op); k != "" {
 					rec.Excluded(k)
